@@ -28,7 +28,7 @@ def run(tier, repo=None, procs=16):
         lines = T.read_lines(stats["lines_path"])
         size = max(50, min(2000, len(lines) // (procs * 4) + 1))
         with core.pool(attrs_replay.worker_init, (repo,), procs) as p:
-            parts = p.map(attrs_replay.replay_chunk, list(core.chunks(lines, size)))
+            parts = core.pmap(p, attrs_replay.replay_chunk, list(core.chunks(lines, size)))
         tot = {"n": 0, "same": 0, "attention": [], "dropped": 0, "own_drift": 0}
         for r in parts:
             for k in ("n", "same", "dropped", "own_drift"):
